@@ -214,7 +214,14 @@ def stmt(draw, depth=2, in_func=False, in_loop=False, in_async=False, nested_fun
         return '%s = %s = %s' % (draw(_name), draw(_name), e(1))
     if kind == 7:
         mod = draw(st.sampled_from(MODULES))
-        form = draw(st.integers(0, 3))
+        form = draw(st.integers(0, 6))
+        if form == 4:
+            # relative imports (a program that is part of a package): the module part is still what the tree says
+            return 'from %s%s import %s' % ('.' * draw(st.integers(1, 2)), mod, draw(st.sampled_from(['sqrt', 'thing as t', '*'])))
+        if form == 5:
+            return 'from %s%s.sub import thing' % ('.' * draw(st.integers(1, 2)), mod)
+        if form == 6:
+            return 'from %s import %s' % ('.' * draw(st.integers(1, 2)), mod)
         if form == 0:
             return 'import %s' % mod
         if form == 1:
